@@ -728,6 +728,101 @@ def _run_case(case, seed, modes, keys, rec):
               finding=_finding_readback(A, regs1, bad))
         _chain(A, o1, inp, rec, kind, expect, settings, c, rng, keys)
     _alt_width_checks(A, cfg, tsettings, regs0, rec, rng)
+    _hexstring_checks(A, cfg, tsettings, regs0, rec, rng)
+
+
+def _hexstring_values(rng, width):
+    """value classes for a register whose configuration value is a hex string WITHOUT the 0x prefix (config_as_hexstring): strings
+    that consist of the digits 0-9 only and denote a value >= 0x10 (they read differently as decimal numbers), a string that starts
+    with '0B' followed by 0/1 digits only (reads as a binary literal), besides small and ordinary values as controls"""
+    nd = width // 4
+    m = (1 << width) - 1
+    pat = int(("1122334455667788" * (nd // 16 + 1))[:nd], 16)
+    rnd = int("".join(rng.choice("0123456789") for _ in range(nd)), 16)
+    rnd |= 0x10
+    out = [("small-9", 0x9), ("digits-0x10", 0x10), ("digits-0x99", 0x99), ("digits-pattern", pat & m), ("digits-all-nines", int("9" * nd, 16)),
+           ("digits-random", rnd & m), ("letters", int(("EFCDAB89" * (nd // 8 + 1))[:nd], 16) & m)]
+    if nd >= 4:
+        out.append(("0b-binary-look", int("0B" + "1" * (nd - 2), 16)))
+    return out
+
+
+def _hexstring_checks(A, cfg, tsettings, regs0, rec, rng):
+    """EVERY run, EVERY row with registers marked config_as_hexstring (FCF BACKDOOR_COMPARISON_KEY, CMPA ROTKH, fuse key groups, ...):
+    get_config writes them as hex WITHOUT prefix; for the digit-only classes the string must still be read as hexadecimal.  Oracle from
+    the input alone: x = load(template with the register given as 0x-prefixed literal); export(load(get_config(x))) == export(x) (values
+    for the fuse map), the configuration is a fixed point, and the register of the reloaded object holds the number the string denotes
+    in base 16."""
+    if regs0 is None:
+        return
+    E = rec.expect
+    cid = rec.cid
+    cand = [reg for reg in regs0._registers if reg.config_as_hexstring and not reg._bitfields and reg.name in tsettings
+            and not isinstance(tsettings[reg.name], dict) and not is_fixed(A.fixed, reg.name)]
+    if len(cand) > 3:
+        cand = rng.sample(cand, 3)
+    for reg in cand:
+        W = reg.width
+        for label, v in _hexstring_values(rng, W):
+            if reg.sub_regs and len(reg.sub_regs) * reg.sub_regs[0].width != W:
+                continue   # open finding C12-group-wider-than-subregs
+            inp = (cid, "hexstring", reg.name, label, f"{v:X}")
+            rec.note(inp, f"{A.kind}:hexstring:{label}")
+            settings = dict(tsettings)
+            settings[reg.name] = "0x" + f"{v:0{W // 4}X}"
+            c = A.with_settings(cfg, settings)
+            r = pyres(A.load, json.loads(json.dumps(c)))
+            if not E(r[0] == "ok", inp, "a configuration with an in-range 0x-prefixed value for a hex-string register does not load", r):
+                continue
+            o1 = r[1]
+            g = A.regs(o1).find_reg(reg.name)
+            gv = pyres(g.get_value)
+            if not E(gv == ("ok", v), inp, "the register does not hold the configured value", gv, v):
+                continue
+            c2 = pyres(A.config, o1)
+            if not E(c2[0] == "ok", inp, "get_config fails", c2):
+                continue
+            shown = None
+            try:
+                shown = A.settings(c2[1]).get(reg.name)
+            except Exception:  # noqa: BLE001
+                shown = None
+            if isinstance(shown, str):
+                # what the configuration text denotes (format description: hex digits, optional 0x prefix) must be the value
+                try:
+                    den = int(shown, 16)
+                except ValueError:
+                    den = None
+                E(den == v, inp, "get_config shows a hex-string register with a text that does not denote its value in base 16", shown, f"{v:X}")
+                # correspondence item: the scalar decoding of the model (generated rule of _load_yml_config) on exactly this text
+                fresh = pyres(A.fresh_registers)
+                if fresh[0] == "ok" and fresh[1] is not None:
+                    for text in (shown, "0x" + shown if not shown.lower().startswith("0x") else shown, v):
+                        fr = pyres(A.fresh_registers)
+                        if fr[0] != "ok" or fr[1] is None:
+                            break
+                        lr = pyres(fr[1].load_yml_config, {reg.name: text})
+                        res = "err"
+                        if lr[0] == "ok":
+                            rv = pyres(fr[1].find_reg(reg.name).get_value)
+                            res = f"ok:{rv[1]}" if rv[0] == "ok" else "err"
+                        rec.model.append({"op": "scalar", "hx": 1, "text": text, "width": W, "res": res, "inp": list(map(str, inp)) + [str(text)]})
+            l2 = pyres(A.load, json.loads(json.dumps(c2[1])))
+            if not E(l2[0] == "ok", inp, "the configuration produced by get_config does not load back", l2, _cfg_excerpt({reg.name: shown})):
+                continue
+            g2 = pyres(lambda: A.regs(l2[1]).find_reg(reg.name).get_value())
+            E(g2 == ("ok", v), inp, "load_from_config(get_config(x)): a hex-string register does not get its value back (the text of the "
+              "configuration is read in another base)", (hex(g2[1]) if g2[0] == "ok" else g2, shown), hex(v))
+            if A.has_binary:
+                b1, b2 = pyres(A.export, o1), pyres(A.export, l2[1])
+                E(b1[0] == "ok" and b2 == ("ok", b1[1]), inp, "export(load_from_config(get_config(x))) differs from export(x)",
+                  first_diff(bytes(b1[1]), bytes(b2[1])) if b1[0] == "ok" and b2[0] == "ok" else (b1[0], b2[0]))
+            else:
+                o3, o1v = pyres(A.observable, l2[1]), pyres(A.observable, o1)
+                E(o3 == o1v, inp, "load(get_config(x)) does not hold the same values as x", _obs_diff(o1v, o3))
+            c3 = pyres(A.config, l2[1])
+            E(c3[0] == "ok" and c2[0] == "ok" and json.dumps(c3[1], sort_keys=True, default=str) == json.dumps(c2[1], sort_keys=True, default=str), inp,
+              "get_config(load_from_config(get_config(x))) differs from get_config(x)")
 
 
 def _ref_field(v, width, alts, reverse):
@@ -1511,7 +1606,7 @@ def run(ck):
     ck.max_fail_per_stream = 40
     ck.spec_ops = set()   # drv_c12 has no Spec-only op: every answer depends on Model/ConfigArea or the generated tables.  All oracle
     #                       expectations and finding predicates of this file are computed from the input and the real code alone.
-    gen_names = ["RegLayouts", "RegDetails", "PfrRules"]
+    gen_names = ["RegLayouts", "RegDetails", "PfrRules", "ScalarRule"]
     ck.lean_obligations(generated=gen_names)
     drv = ck.driver()
     ck.assume("YAML parsing (PyYAML safe_load, as SPSDK's load_configuration), YAML emission (ruamel.yaml) and JSON-schema validation "
@@ -1821,6 +1916,18 @@ def _correspondence(ck, drv, cases, recs):
                         want = f"?{res}"
                 lines.append(f"enumval {it['ri']} {it['fi']} {it['v']}")
                 expect.append(want)
+            elif it["op"] == "scalar":
+                t = it["text"]
+                if isinstance(t, int):
+                    req = f"scalar {it['hx']} i {t}"
+                elif isinstance(t, str) and t.lower().startswith("0x"):
+                    req = f"scalar {it['hx']} p {t[2:] or '-'}"
+                else:
+                    req = f"scalar {it['hx']} d {t or '-'}"
+                lines.append(req)
+                expect.append(it["res"])
+                inputs.append(inp)
+                continue
             elif it["op"] == "rule":
                 lines.append(f"compute 0:{it['rule']} 0 {it['v']}")
                 expect.append(str(it["out"]))
